@@ -31,10 +31,16 @@ func build(sc *engine.Scenario, res *engine.Result) *machine.Machine {
 		res.Harness = "cart build: " + err.Error()
 		return nil
 	}
-	m, pi := machine.New(img, sc.Cart.Missing, machine.Options{Audio: sc.Audio, Video: sc.Video, Serial: sc.Serial, ChanCap: sc.ChanCap, DebugLCD: sc.P("env.debuglcd", 0) != 0})
+	envAudio, envVideo := sc.P("env.audio", 0) != 0 && !sc.Audio, sc.P("env.video", 0) != 0 && !sc.Video
+	m, pi := machine.New(img, sc.Cart.Missing, machine.Options{Audio: sc.Audio || envAudio, Video: sc.Video || envVideo, Serial: sc.Serial, ChanCap: sc.ChanCap, DebugLCD: sc.P("env.debuglcd", 0) != 0})
 	if pi != nil {
 		res.Harness = fmt.Sprintf("construction panicked for a well-formed cartridge: %s (%s)", pi.Value, pi.Site)
 		return nil
+	}
+	if envAudio {
+		// outputs attached although the property is not about them: a prompt consumer takes the samples
+		m.AutoDrain = true
+		res.Probe("env_audio_attached")
 	}
 	return m
 }
@@ -75,6 +81,14 @@ func chooseEnv(r *engine.Rand, sc *engine.Scenario) {
 	}
 	if r.Chance(1, 4) {
 		sc.SetP("env.debuglcd", 1)
+	}
+	// audio and video outputs attached or not (Config.DisableAudioOutput / DisableVideoOutput); only
+	// honoured by checks that build their machine through build() and do not own those outputs
+	if r.Chance(1, 3) {
+		sc.SetP("env.audio", 1)
+	}
+	if r.Chance(1, 3) {
+		sc.SetP("env.video", 1)
 	}
 }
 
